@@ -30,6 +30,9 @@ ArrSParent == <<0, 0, 1, 0>>
 \* default key: equality of (args, kwargs); custom key of M2: parity of the first / x argument
 KeyOf3 == <<<<1, 2, 3>>, <<1, 2, 1>>>>
 KeyOf7 == <<<<1, 2, 3, 3, 4, 4, 5>>, <<1, 2, 1, 1, 1, 1, 1>>>>
+\* argument 8 is (13,): the executor's classes raise in __init__ for it (a construction that fails)
+KeyOf8 == <<<<1, 2, 3, 3, 4, 4, 5, 6>>, <<1, 2, 1, 1, 1, 1, 1, 1>>>>
+BadArgs == {8}
 
 TC == 1..NTC
 SC == 1..NSC
@@ -56,6 +59,7 @@ NewInst(T, kind, c, a) ==
 \* C(arg) for a TrueSingleton class
 Post_TNew(T, c, a) ==
   IF T.tinst[c] # 0 THEN {Res(T, FALSE, T.tinst[c])}
+  ELSE IF a \in BadArgs THEN {Res(T, TRUE, 0)}        \* __init__ raised: nothing is registered
   ELSE LET U == NewInst(T, "t", c, a) IN {Res([U EXCEPT !.tinst[c] = U.ni], FALSE, U.ni)}
 
 \* clear_true_singleton(C) / clear_true_singleton()  (c = 0)
@@ -67,6 +71,7 @@ Post_TClear(T, c) ==
 Post_SNew(T, c, a) ==
   LET k == Key(c, a) IN
   IF T.smap[c][k] # 0 THEN {Res(T, FALSE, T.smap[c][k])}
+  ELSE IF a \in BadArgs THEN {Res(T, TRUE, 0)}        \* __init__ raised: nothing is registered, the key stays free
   ELSE LET U == NewInst(T, "s", c, a) IN {Res([U EXCEPT !.smap[c][k] = U.ni], FALSE, U.ni)}
 
 \* add_mapping(obj, arg): obj also answers to arg's key in ITS class
